@@ -6,6 +6,7 @@ package sim
 import (
 	"errors"
 	"io"
+	"runtime"
 	"sync"
 	"sync/atomic"
 	"time"
@@ -436,6 +437,22 @@ func NewWorld(o Options) (*World, error) {
 	w.Conn.WaitReaderParked(10 * time.Second)
 
 	return w, nil
+}
+
+// Release is called by the harness when a world is finished: the client carries a finalizer,
+// and a finalizable object inside a reference cycle (client -> collector/connection hook/handler
+// closure -> world -> client) is never garbage collected. Clearing the finalizer of the closed
+// client and the harness-side back references lets the whole world be collected.
+func (w *World) Release() {
+	if w.Client != nil {
+		runtime.SetFinalizer(w.Client, nil)
+	}
+	w.Client = nil
+	w.Conn.AfterWrite, w.Conn.OnWrite, w.Conn.OnRead, w.Conn.OnClose = nil, nil, nil, nil
+	w.Agent.Before, w.Agent.After = nil, nil
+	w.Coll.mu.Lock()
+	w.Coll.f = nil
+	w.Coll.mu.Unlock()
 }
 
 // Tick moves the clock to d and runs the collector callback at that time.
